@@ -222,6 +222,49 @@ def check_case(b, bp, ref, mi, tree, res: Result, w, rng):
                         res.violation("group-alters-known", ["group", ds[0].fi.cls_key() if ds[0].fi else "?", "known-field-changed"],
                                       f"{mi.full_name}: a proto2 group of unknown field {unknown_no} changed known fields: {ds[0].short()}; input {data.hex()[:200]}", ww)
 
+    # (4b) truncation inside records the schema does not decode: unknown numbers (every wire type) and known numbers
+    # arriving with a non-fitting wire type -- a cut inside such a record must be rejected as well
+    if only in (None, "cut-tail") and w.get("tag") in ("empty", "maximal", "matrix", None) or only == "cut-tail":
+        unknown_no = max([f.number for f in mi.fields] + [0]) + 1
+        tails = []
+        if unknown_no < 2**29:
+            tails += [_payload_for(1, unknown_no, rng), _payload_for(5, unknown_no, rng), spec.enc_tag(unknown_no, 2) + b"\x05hello",
+                      spec.enc_tag(unknown_no, 0) + spec.enc_varint(2**40)]
+        for fi in mi.fields[:6]:
+            for wt in (1, 5, 2):
+                if not _fits(fi, wt):
+                    tails.append(_payload_for(wt, fi.number, rng) if wt != 2 else spec.enc_tag(fi.number, 2) + b"\x04abcd")
+        for ti, tail in enumerate(tails):
+            if only == "cut-tail" and ti != w["tail"]:
+                continue
+            for c in (range(1, len(tail)) if only != "cut-tail" else [w["cut"]]):
+                data = e0 + tail[:c]
+                ww = dict(w, mal="cut-tail", tail=ti, cut=c)
+                res.note("truncations")
+                out = judge_generic(data, "cut-in-undecoded-record", ww)
+                if out[0] == "ok":
+                    res.violation("truncation-accepted", ["cut-in-undecoded-record", f"wt{spec.dec_varint(tail)[0] & 7}", "in-payload-or-tag"],
+                                  f"{mi.full_name}: an appended record {tail.hex()} cut after {c} bytes was accepted; input {data.hex()[:200]}", ww)
+
+    # (4c) packed fixed-width payloads whose length is not a multiple of the element width, and invalid UTF-8
+    if only in (None, "ragged", "utf8"):
+        for fi in mi.fields:
+            inner_kind = fi.kind
+            if fi.label == "repeated" and fi.kind in spec.I32_KINDS + spec.I64_KINDS and only in (None, "ragged"):
+                wdt = 4 if fi.kind in spec.I32_KINDS else 8
+                for extra in (1, wdt - 1):
+                    payload = bytes(range(1, wdt + 1)) * 2 + bytes([7] * extra)
+                    data = e0 + spec.enc_record(fi.number, 2, payload)
+                    ww = dict(w, mal="ragged", number=fi.number)
+                    out = judge_generic(data, "ragged-packed", ww)
+                    if out[0] == "ok":
+                        res.violation("ragged-packed-accepted", [fi.cls_key(), f"extra{extra}", "accepted"],
+                                      f"{mi.full_name}.{fi.name}: packed payload of {len(payload)} bytes (element width {wdt}) was accepted; input {data.hex()[:200]}", ww)
+            if fi.kind == "string" and fi.label in ("singular", "optional", "oneof", "repeated") and only in (None, "utf8"):
+                for bad in (b"\xed\xa0\x80", b"\xff", b"\xc0\xaf", b"ab\xe2\x82", b"\xed\xbf\xbf"):
+                    data = e0 + spec.enc_record(fi.number, 2, bad)
+                    judge_generic(data, "invalid-utf8", dict(w, mal="utf8", number=fi.number))
+
     # (5) random byte strings --------------------------------------------------
     if only is None:
         for _ in range(6):
